@@ -17,7 +17,7 @@ from ..world import CONTEXT_FREE, LINEAR, Session, clone_rng, diff, make_mab
 
 ID = "C03"
 LEVEL = "exploration"
-QUICK_RUNS = 800
+QUICK_RUNS = 3200
 RULE = ("Each run: Radius or KNearest over a drawn context-free or linear policy; contexts on the integer grid [-3,3]^d, "
         "metric in {cityblock, chebyshev, sqeuclidean, euclidean}; radius drawn from the realised query-to-row distances "
         "(boundary rows included), k up to the number of stored rows; history fit + partial_fit* with restarts; queries "
